@@ -1194,6 +1194,8 @@ func main() {
 	chFrame := vh.NewChannel("bulk.frame", "esBulkDocReader.ReadDoc until end/error vs SV.Bulk.readAll: documents yielded and kind of ending; exhaustive document-line lengths in [B-3,B+3] x terminators x position, plus grammar bodies with mutations, random chunking of the stream; non-trivial = at least one document yielded")
 	chProc := vh.NewChannel("bulk.proc", "POST /_bulk through the real BulkHandler and bulk.Ingestor into a capturing StorageClient vs SV.Bulk.processDocuments: status class, created items, number of store calls, decompressed docs payload; JSON verdicts of insane-json passed to the model as oracle; non-trivial = the reader yields at least one document")
 	chIngest := vh.NewChannel("bulk.ingest", "Ingestor.ProcessDocuments fed by the real esBulkDocReader.ReadDoc with a chosen request time vs SV.Bulk.processDocuments with metaFor: items, payload, and per stored document MID and Size of its meta (document times around the request time, beyond the drifts and beyond int64); non-trivial = at least one document stored")
+	chIndex := vh.NewChannel("bulk.index", "all metas (MID, Size, tokens; parent and nested) stored by the real Ingestor for one document under a mapping with keyword/text/path/exists, multi-type, object, tags and nested fields vs SV.Bulk.metasFor = time rule + SV.BulkIndex.indexDoc (per field: C11's SV.Tok.indexField) on the tree insane-json presents; random case sensitivity, partial indexing and token limits; non-trivial = the parent meta has more than the _all_ token")
+	orcIndex := vh.NewOracle("bulk.items", "one stored document = one created item, one meta of the document's size first, then only size-0 metas with the same ID (nested elements); non-trivial = at least one nested meta")
 	chCodec := vh.NewChannel("bulk.codec", "captured docs payload: packer.BytesUnpacker vs SV.Bulk.decodeDocs, and SV.Bulk.encodeDocs of the decoded documents vs the payload; plus truncated payloads; captured metas payload: MetaData.UnmarshalBinary per record vs SV.Bulk.decMeta (ids, size, token bytes) and re-encoding equals the payload; non-trivial = at least two documents")
 	chDelayed := vh.NewChannel("bulk.delayed", "bulk.documentDelayed vs the extracted translation documentDelayedX at 0, +-1, +-drift(+-1), int64 edges, random; non-trivial = |docDelay| beyond a drift limit")
 	chMid := vh.NewChannel("bulk.mid", "MID of the meta stored by Ingestor.ProcessDocuments for one document at a chosen request time vs SV.BulkTime.docMID (saturating Sub, wrapping UnixNano) on the doc time reported by extractDocTime; non-trivial = a time field parsed")
@@ -1228,6 +1230,11 @@ func main() {
 					gzTruncCase(b, cut, orcProp, rep)
 				}
 			}
+			if f := strings.Fields(l); len(f) == 2 && f[0] == "index" {
+				if b, err := hex.DecodeString(f[1]); err == nil {
+					runIndexCases(chIndex, orcIndex, rep, vh.NewRNG(o.Seed), []string{string(b)})
+				}
+			}
 			if c, ok := parseE2ECase(l); ok {
 				runE2E([]e2eCase{c}, orcE2E, rep)
 			}
@@ -1235,6 +1242,8 @@ func main() {
 		rep.AddChannel(chFrame, o.Driver)
 		rep.AddChannel(chProc, o.Driver)
 		rep.AddChannel(chMid, o.Driver)
+		rep.AddChannel(chIndex, o.Driver)
+		rep.AddOracle(orcIndex)
 		rep.AddOracle(orcProp)
 		rep.AddOracle(orcTime)
 		rep.AddOracle(orcE2E)
@@ -1395,6 +1404,10 @@ func main() {
 		}
 	}
 
+	if want("bulk.index") {
+		runIndexChannel(chIndex, orcIndex, rep, rng.Fork(), o)
+	}
+
 	if want("bulk.codec") {
 		r := rng.Fork()
 		for _, p := range payloads {
@@ -1522,7 +1535,7 @@ func main() {
 		}
 	}
 
-	for _, ch := range []*vh.Channel{chRL, chFrame, chProc, chIngest, chCodec, chDelayed, chMid, chExtract} {
+	for _, ch := range []*vh.Channel{chRL, chFrame, chProc, chIngest, chIndex, chCodec, chDelayed, chMid, chExtract} {
 		if want(ch.Name) {
 			rep.AddChannel(ch, o.Driver)
 		}
@@ -1534,5 +1547,6 @@ func main() {
 	rep.AddOracle(orcProp)
 	rep.AddOracle(orcTime)
 	rep.AddOracle(orcE2E)
+	rep.AddOracle(orcIndex)
 	rep.Write(o.Out)
 }
